@@ -160,6 +160,19 @@ func runGen(args []string) error {
 			}
 			g.txn(fl, tot)
 		}
+		// scanner-buffer boundary behind a random prefix: the decoder's buffer ends 4096 bytes after the start of the
+		// first field that did not fit; an empty field (or a field header) ends / straddles exactly there
+		for _, d := range []int{-1, 0, 0, 1, 2} {
+			var fl []any
+			tot := 0
+			for tot < 200+g.r.Intn(2500) {
+				n := g.r.Intn(300)
+				fl = append(fl, g.field(n))
+				tot += n + 4
+			}
+			fl = append(fl, g.field(4088+d), g.field(0), g.field(g.r.Intn(5)))
+			g.txn(fl, tot+4120)
+		}
 		// several large fields in one transaction (total size beyond 64 KiB)
 		if thorough || round == 0 {
 			a, b := dataLens[5+g.r.Intn(5)], 30000+g.r.Intn(30000)
@@ -167,7 +180,8 @@ func runGen(args []string) error {
 		}
 		// user records: two-byte name size
 		for _, n := range append([]int{0, 1, 254, 255, 256, 4000}, pickN(g.r, []int{65527, 65534, 65535}, 1)...) {
-			g.add("user", map[string]any{"id": g.r.Intn(65536), "icon": g.r.Intn(65536), "flags": g.r.Intn(16), "name": g.bytes(n)}, n+8)
+			g.add("user", map[string]any{"id": g.r.Intn(65536), "icon": g.r.Intn(65536), "flags": g.r.Intn(16), "name": g.bytes(n),
+				"iconw": 2 + 2*g.r.Intn(2), "flagsw": 2 + 2*g.r.Intn(2)}, n+8)
 		}
 		for _, n := range pickN(g.r, []int{0, 1, 255, 256, 1000}, 3) {
 			g.add("account", map[string]any{"login": g.bytes(n % 300), "name": g.bytes(n), "access": g.bytes(8), "haspw": g.r.Intn(2) == 0}, 2*n+40)
